@@ -17,7 +17,7 @@ from qv.rngx import ChoiceRNG, Policy
 from qv.runner import Acc, Report, pmap
 
 PID = "C11"
-ALPHA = (-1, 0, 1, 2, 5)
+ALPHA = (-3, -1, 0, 1, 2, 5)
 POLICY = dict(uniform_q=(0.3, 0.8), angular_q=None, product_limit=0, branch_calls=0)
 TOL = 1e-12
 
@@ -60,6 +60,8 @@ def check_single(labels, opname, viol_add, counters):
             log = []
             ctx = DisplacementContext(atoms, ChoiceRNG(ch, Policy(**POLICY)))
             mv = DisplacementMove(labels.copy(), make_op(opname, log))
+            mv.max_attempts = 2
+            mv.check_move = lambda *_a, **_k: ch.pick("user", 2, None, ["check-ok", "check-veto"]) == 0
             if pre is not None:
                 mv.to_displace_labels = pre
             before = atoms.positions.copy()
@@ -105,6 +107,12 @@ def check_single(labels, opname, viol_add, counters):
             target = np.flatnonzero(labels == chosen)
             if len(target) > 1 or (labels < 0).any():
                 counters["nontrivial"] += 1
+            checks = [p.idx for p in ch.trace if p.kind == "user"]
+            vetoed_all = len(checks) == 2 and all(c == 1 for c in checks)
+            if vetoed_all:
+                if res or len(moved):
+                    viol_add(f"C11/single/{opname}/{mode}/all-attempts-vetoed-but-changed", f"returned {res!r}, moved atoms {moved.tolist()}; {where}", rep)
+                continue
             if not res:
                 viol_add(f"C11/single/{opname}/{mode}/reported-failure", f"returned {res!r} although label {chosen} is eligible; {where}", rep)
                 continue
@@ -113,9 +121,10 @@ def check_single(labels, opname, viol_add, counters):
                 kind = "negative-label-atom-moved" if any(labels[i] < 0 for i in extra) else "other-particle-moved"
                 viol_add(f"C11/single/{opname}/{mode}/{kind}", f"atoms {extra} moved, selected label {chosen} owns {target.tolist()}; {where}", rep)
                 continue
-            if len(log) != 1:
-                viol_add(f"C11/single/{opname}/{mode}/operation-calls", f"{len(log)} operation results for one accepted attempt; {where}", rep)
+            if len(log) != len(checks):
+                viol_add(f"C11/single/{opname}/{mode}/operation-calls", f"{len(log)} operation results for {len(checks)} attempts; {where}", rep)
                 continue
+            log = [log[-1]]  # the accepted attempt: the displacement must be that single result
             want = np.broadcast_to(log[0], (len(target), 3)) if log[0].shape[0] in (1, len(target)) else None
             got = after[target] - before[target]
             if want is None or not np.allclose(got, want, atol=TOL, rtol=0):
@@ -261,9 +270,9 @@ def run(tier, seed):
         "label_arrays": acc.n("label_arrays"),
         "nontrivial_executions": acc.n("nontrivial"),
         "violating": acc.n("violating"),
-        "bound": "all label arrays of length 0..4 (thorough: 0..5) over {-1,0,1,2,5}; operations Box/Ball/Translation/Rotation; random and every pre-selected target; composites D*n and D+..+D for n=1..3 (length 5: 2..4); every particle-choice answer; one proposal value per draw",
+        "bound": "all label arrays of length 0..4 (thorough: 0..5) over {-3,-1,0,1,2,5}; check_move answers (max_attempts=2) on single moves; operations Box/Ball/Translation/Rotation; random and every pre-selected target; composites D*n and D+..+D for n=1..3 (length 5: 2..4); every particle-choice answer; one proposal value per draw",
         "exhaustive": True,
-        "samples": [{"labels": [2, -1, 2, 0], "op": "rot", "target": "random", "checked": "moved set == atoms of chosen label, displacement == recorded operation result"}],
+        "samples": [{"labels": [2, -3, 2, 0], "op": "rot", "target": "random", "checked": "moved set == atoms of chosen label, displacement == recorded operation result"}],
     }
     rep.assumptions = ["operation results are recorded by a subclass wrapper of the shipped operation (calculate is the documented protocol method)"]
     return rep
